@@ -100,6 +100,21 @@ def job_radiogenic():
     e1, e2, eh = atoms.exp(x1), atoms.exp(x2), atoms.exp(LN)
     exp_product_axiom(e2, e1, eh, x2, x1, LN)
     CTX.axiom(eq_goal(eh, Q(Fr(1, 2))), 'exp(LOG_HALF) = 1/2 (LOG_HALF = np.log(0.5) in the source)')
+    # ... which is an obligation on the module constant itself: LOG_HALF must be defined as np.log(<exactly one half>) in the current source
+    import ast as _ast
+    from symx.solve import REPO as _REPO
+    _src = open(os.path.join(_REPO, 'TidalPy/radiogenics/radiogenic_models.py')).read()
+    _arg = None
+    for _n in _ast.parse(_src).body:
+        if isinstance(_n, _ast.Assign) and getattr(_n.targets[0], 'id', None) == 'LOG_HALF' and isinstance(_n.value, _ast.Call) and _ast.unparse(_n.value.func) in ('np.log', 'log', 'math.log') \
+                and len(_n.value.args) == 1:
+            try:
+                _arg = Fr(_ast.get_source_segment(_src, _n.value.args[0]).strip())
+            except (ValueError, ZeroDivisionError):
+                _arg = None
+    results.append(discharge(Obligation('module constant LOG_HALF is log(1/2) (the value the half-life axiom relies on)', z3.BoolVal(_arg == Fr(1, 2)), [], with_axioms=False, with_dens=False,
+                                        replay=replay.fn_replay('TidalPy.radiogenics.radiogenic_models', 'fixed', [5600.0, 1.0, 1.0, 1000.0, 4600.0], lambda val, a: abs(val - 0.5) > 1e-12,
+                                                                'fixed(t_ref + half_life, mass=1, production=1, half_life) must be 1/2'), key='const:LOG_HALF')))
     results.append(discharge(Obligation('isotope: a single isotope halves after one half-life', eq_goal(later, one * Fr(1, 2)), pos, replay=rp_iso('half'), key='iso:half')))
     results.append(discharge(Obligation('isotope: heating > 0 for positive inputs', (whole > 0).c, pos, replay=rp_iso('positive'), key='iso:positive')))
     fx = fns['fixed']
